@@ -73,43 +73,25 @@ fn c09_is_valid_duration_date_fields() {
     assert!(got == vk_valid_int([iy, im, iw, id, 0, 0, 0, 0, 0, 0]));
 }
 
-// bounded: hours only (other fields zero), |field| <= 2^53, unwind 11 with unwinding assertions on
-// (days together with hours, or three of the day/hour/minute/second fields symbolic at once, do not terminate in CBMC
-// within 10 min, even with |field| <= 2^42)
-#[kani::proof]
-#[kani::unwind(11)]
-fn c09_is_valid_duration_h_field() {
-    let (h, ih) = vk_i53();
-    let z = FiniteF64::default();
-    kani::cover!(true);
-    let got = is_valid_duration(z, z, z, z, h, z, z, z, z, z);
-    assert!(got == vk_valid_int([0, 0, 0, 0, ih, 0, 0, 0, 0, 0]));
+/// the statement's validity on the whole-second fields, computed in seconds (sub-second fields zero: no rounding question)
+fn vk_valid_sec(d: i128, h: i128, mi: i128, s: i128) -> bool {
+    if (d > 0 || h > 0 || mi > 0 || s > 0) && (d < 0 || h < 0 || mi < 0 || s < 0) { return false; }
+    let total = d * 86_400 + h * 3_600 + mi * 60 + s;
+    total.abs() < 9_007_199_254_740_992
 }
 
-// bounded: hours and minutes only (other fields zero), |field| <= 2^53, unwind 11 with unwinding assertions on
-// tier: thorough
-// timeout: 1500
+// bounded: days, hours, minutes and seconds symbolic together (other fields zero), |field| <= 2^53, unwind 11 with unwinding assertions on
 #[kani::proof]
 #[kani::unwind(11)]
-fn c09_is_valid_duration_hm_fields() {
+fn c09_is_valid_duration_dhms_fields() {
+    let (d, id) = vk_i53();
     let (h, ih) = vk_i53();
-    let (mi, imi) = vk_i53();
-    let z = FiniteF64::default();
-    kani::cover!(true);
-    let got = is_valid_duration(z, z, z, z, h, mi, z, z, z, z);
-    assert!(got == vk_valid_int([0, 0, 0, 0, ih, imi, 0, 0, 0, 0]));
-}
-
-// bounded: minutes and seconds only (other fields zero), |field| <= 2^53, unwind 11 with unwinding assertions on
-#[kani::proof]
-#[kani::unwind(11)]
-fn c09_is_valid_duration_ms_fields() {
     let (mi, imi) = vk_i53();
     let (s, is) = vk_i53();
     let z = FiniteF64::default();
     kani::cover!(true);
-    let got = is_valid_duration(z, z, z, z, z, mi, s, z, z, z);
-    assert!(got == vk_valid_int([0, 0, 0, 0, 0, imi, is, 0, 0, 0]));
+    let got = is_valid_duration(z, z, z, d, h, mi, s, z, z, z);
+    assert!(got == vk_valid_sec(id, ih, imi, is));
 }
 
 // bounded: seconds and sub-second fields only (other fields zero), |field| <= 2^53, unwind 11 with unwinding assertions on
